@@ -112,6 +112,17 @@ def run(ctx):
             cur = nxt[0]
         return " -> ".join("%s [%s:%s]" % (nodes[t]["name"][:70], f.split("/")[-1], l) for t, l, f, k in out[:10]) + (" -> ..." if len(out) > 10 else "")
 
+    # an instance outside the crate is an allocation source for its local caller only if it reaches the allocator by itself; when it gets
+    # there only by calling back into a local function (a closure handed to for_each / fold / map_or ...), that local function is the
+    # one whose calls are judged -- it is reached, so its own edges are in this frontier
+    can_nl = set()
+    st = [v for v in seen if is_sink[v]]
+    while st:
+        x = st.pop()
+        if x in can_nl:
+            continue
+        can_nl.add(x)
+        st.extend(p_ for p_ in rev.get(x, []) if not nodes[p_]["local"])
     frontier = {}
     for v in seen | {root}:
         n = nodes[v]
@@ -120,8 +131,10 @@ def run(ctx):
         for (to, bb, kind, ln, fl) in n["edges"]:
             if v == root and (bb not in fm.child_region or bb in fm.parent_region):
                 continue
-            if to in can and not nodes[to]["local"] and not is_panic[to]:
-                frontier.setdefault((n["path"], nodes[to]["path"], nodes[to]["name"]), []).append((ln, fl, kind, to))
+            if to in can_nl and not nodes[to]["local"] and not is_panic[to]:
+                # (a closure's calls are its enclosing function's calls)
+                owner = n["path"].split("::{closure")[0]
+                frontier.setdefault((owner, nodes[to]["path"], nodes[to]["name"]), []).append((ln, fl, kind, to))
     ALLOWED = {("posix::PrepExec::assemble_exe", "std::vec::Vec::<T, A>::extend_from_slice"), ("posix::PrepExec::assemble_exe", "std::vec::Vec::<T, A>::push")}
     allowed_seen = set()
     for (a, bpath, bname), sites in sorted(frontier.items()):
